@@ -32,9 +32,63 @@ fn res_of<T>(r: Result<anyhow::Result<T>, String>) -> (Res, Option<T>) {
 	match r { Err(p) => (Res::Panic(p), None), Ok(Err(_)) => (Res::Err, None), Ok(Ok(v)) => (Res::Ok, Some(v)) }
 }
 
+/// the limit that duke/src/class_reader/pool.rs documents (MAX_BOOTSTRAP_ARGUMENTS_EXPANDED): bootstrap
+/// arguments, counting the nested ones, that are resolved (and stored by value) for ONE instruction
+pub const MAX_BOOTSTRAP_ARGUMENTS_EXPANDED: u64 = 1 << 16;
+/// ... as the source under test states it (`const MAX_BOOTSTRAP_ARGUMENTS_EXPANDED: usize = 1 << 16;`), so that a
+/// deliberate change of the documented limit is not reported as a violation of the property (the
+/// model's `max_expanded` then disagrees in the correspondence instead); 65536 when it cannot be read
+fn documented_expansion_limit() -> u64 {
+	static L: std::sync::OnceLock<u64> = std::sync::OnceLock::new();
+	*L.get_or_init(|| {
+		let repo = std::env::var("VERIF_REPO").unwrap_or_else(|_| env!("FBH_REPO").to_string());
+		let parse = |e: &str| -> Option<u64> {
+			let num = |x: &str| -> Option<u64> { let x = x.trim().replace('_', ""); if let Some(h) = x.strip_prefix("0x") { u64::from_str_radix(h, 16).ok() } else { x.parse().ok() } };
+			match e.split_once("<<") { Some((a, b)) => num(a)?.checked_shl(num(b)? as u32), None => num(e) }
+		};
+		std::fs::read_to_string(format!("{repo}/duke/src/class_reader/pool.rs")).ok()
+			.and_then(|src| src.lines().find(|l| l.trim_start().starts_with("const MAX_BOOTSTRAP_ARGUMENTS_EXPANDED")).map(|l| l.to_string()))
+			.and_then(|l| l.split_once('=').and_then(|(_, e)| parse(e.trim().trim_end_matches(';'))))
+			.unwrap_or(MAX_BOOTSTRAP_ARGUMENTS_EXPANDED)
+	})
+}
+
+/// number of `Loadable` values below `arguments`, counting nested ones (iterative: the tree may be deep)
+fn count_loadables(arguments: &[duke::tree::method::code::Loadable]) -> u64 {
+	use duke::tree::method::code::Loadable;
+	let mut n = 0u64;
+	let mut stack: Vec<&[Loadable]> = vec![arguments];
+	while let Some(args) = stack.pop() {
+		for a in args { n += 1; if let Loadable::Dynamic(d) = a { stack.push(&d.arguments); } }
+	}
+	n
+}
+/// the largest number of (nested) bootstrap arguments that one instruction of the class carries
+fn max_bootstrap_expansion(class: &duke::tree::class::ClassFile) -> u64 {
+	use duke::tree::method::code::{Instruction, Loadable};
+	let mut max = 0u64;
+	for m in &class.methods {
+		let Some(code) = m.code.as_ref() else { continue; };
+		for e in &code.instructions {
+			let n = match &e.instruction {
+				Instruction::Ldc(Loadable::Dynamic(d)) => count_loadables(&d.arguments),
+				Instruction::InvokeDynamic(i) => count_loadables(&i.arguments),
+				_ => 0,
+			};
+			max = max.max(n);
+		}
+	}
+	max
+}
+
 /// one input through its parser, inside the child
-fn run_one(kind: u8, bytes: &[u8], scratch: &Path) -> (Res, Option<Res>) {
-	match kind {
+fn run_one(kind: u8, bytes: &[u8], scratch: &Path) -> (Res, Option<Res>, u64) {
+	let (a, b) = run_one_(kind, bytes, scratch);
+	(a.0, a.1, b)
+}
+fn run_one_(kind: u8, bytes: &[u8], scratch: &Path) -> ((Res, Option<Res>), u64) {
+	let mut aux = 0u64;
+	let r = match kind {
 		K_CLASS => {
 			let (r, class) = res_of(guarded(|| duke::read_class(&mut Cursor::new(bytes))));
 			// the same bytes through the reader's other paths: all interests without a tree, no
@@ -45,8 +99,14 @@ fn run_one(kind: u8, bytes: &[u8], scratch: &Path) -> (Res, Option<Res>) {
 				("read_class_multi with a visitor that declines the class", guarded(|| { let mut c = Cursor::new(bytes); if let Ok(v) = duke::read_class_multi(&mut c, skim::Decline(0)) { let _ = duke::read_class_multi(&mut c, v); } })),
 				("read_class_multi into Vec<ClassFile>, twice on one cursor", guarded(|| { let mut c = Cursor::new(bytes); if let Ok(v) = duke::read_class_multi(&mut c, Vec::new()) { let _ = duke::read_class_multi(&mut c, v); } })),
 			];
-			for (what, o) in others { if let Err(p) = o { return (Res::Panic(format!("{what}: {p}")), None); } }
-			let Some(class) = class else { return (r, None); };
+			for (what, o) in others { if let Err(p) = o { return ((Res::Panic(format!("{what}: {p}")), None), 0); } }
+			let Some(class) = class else { return ((r, None), 0); };
+			// the accepted tree must respect the documented bound on bootstrap arguments per instruction
+			aux = max_bootstrap_expansion(&class);
+			let limit = documented_expansion_limit();
+			if aux > limit {
+				return ((Res::Limit(format!("one instruction of the accepted class carries {aux} bootstrap arguments (counting nested ones), the class reader documents a limit of {limit} per instruction (MAX_BOOTSTRAP_ARGUMENTS_EXPANDED)")), None), aux);
+			}
 			let (w, written) = res_of(guarded(AssertUnwindSafe(|| { let mut v = vec![]; duke::write_class(&mut v, &class).map(|_| v) })));
 			let w = match (w, written) {
 				(Res::Ok, Some(v)) => match guarded(|| duke::read_class(&mut Cursor::new(&v)).is_ok()) { Err(p) => Res::Panic(format!("re-reading the written class: {p}")), Ok(_) => Res::Ok },
@@ -60,7 +120,7 @@ fn run_one(kind: u8, bytes: &[u8], scratch: &Path) -> (Res, Option<Res>) {
 			if b.bad() { (b, None) } else { (a, None) }
 		}
 		K_DIFF => {
-			if std::fs::write(scratch, bytes).is_err() { return (Res::Crash("cannot write scratch file".into()), None); }
+			if std::fs::write(scratch, bytes).is_err() { return ((Res::Crash("cannot write scratch file".into()), None), 0); }
 			(res_of(guarded(|| quill::tiny_v2_diff::read_file(scratch))).0, None)
 		}
 		K_ENIGMA => {
@@ -83,13 +143,14 @@ fn run_one(kind: u8, bytes: &[u8], scratch: &Path) -> (Res, Option<Res>) {
 				use duke::tree::class::{ArrClassName, ClassName, ObjClassName};
 				(ClassName::is_valid(&js), ArrClassName::is_valid(&js), ObjClassName::is_valid(&js), duke::tree::method::MethodName::is_valid(&js), duke::tree::field::FieldName::is_valid(&js))
 			});
-			for p in [&f, &m, &r] { if let Err(p) = p { return (Res::Panic(p.clone()), None); } }
-			if let Err(p) = names { return (Res::Panic(p), None); }
+			for p in [&f, &m, &r] { if let Err(p) = p { return ((Res::Panic(p.clone()), None), 0); } }
+			if let Err(p) = names { return ((Res::Panic(p), None), 0); }
 			let own = match kind { K_DESC => f, K_MDESC => m, _ => r };
 			(res_of(own).0, None)
 		}
 		_ => (Res::Err, None),
-	}
+	};
+	(r, aux)
 }
 
 // ---------------------------------------------------------------- bases
@@ -218,6 +279,57 @@ fn case_inputs(rng: &mut Rng, thorough: bool, out: &mut Vec<Input>) {
 			out.push(mk("case-bootstrap", format!("CBoot {gtxt} {root} {}", gbool(indy)), format!("bootstrap argument graph {g:?} (index >= {n} = integer leaf), root {root}, through invokedynamic: {indy}"), gen::bootstrap_class(&args, root, indy)));
 		}
 	}
+	// one instruction, several top-level bootstrap arguments: the budget of 65536 expanded arguments is
+	// per instruction (shared DAGs of exact sizes; sums at 65535 / 65536 / 65537; every argument far
+	// below the budget but the sum above it), through invokedynamic and through ldc of a dynamic constant
+	let mut multi: Vec<(Vec<usize>, bool)> = vec![];
+	for indy in [true, false] {
+		for k in [1usize, 2, 3, 4, 8, 255] {
+			for total in [65535usize, 65536, 65537] { multi.push((gen::split_parts(total, k), indy)); }
+			if k >= 2 {
+				multi.push((vec![65535; k], indy));                      // every argument just under the budget
+				multi.push((vec![65536 / k + 1; k], indy));              // every argument far below, the sum just above
+				multi.push((vec![65536 / k; k], indy));                  // ... and at / just below
+			}
+		}
+		for parts in [vec![32767usize, 32767], vec![32767, 32767, 32767], vec![32767, 32767, 2], vec![32767, 32767, 3], vec![511; 255], vec![65535, 1], vec![65535, 1, 1], vec![1, 65535], vec![1, 1, 65535], vec![65536, 1], vec![1, 65536],
+			vec![40000, 30000], vec![60000, 5536], vec![60000, 5537], vec![1; 255], vec![1, 2, 3, 4, 5], vec![65536], vec![65537], vec![131071], vec![70000, 70000]] { multi.push((parts, indy)); }
+		for _ in 0..12 * scale {
+			let k = rng.range(2, 6);
+			let total = 65536 + rng.below(5) - 2;
+			let mut parts: Vec<usize> = (0..k - 1).map(|_| rng.range(1, total / k + total / (2 * k))).collect();
+			let used: usize = parts.iter().sum();
+			parts.push(total.saturating_sub(used).max(1));
+			multi.push((parts, indy));
+		}
+	}
+	for (parts, indy) in multi {
+		let (g, roots) = gen::multi_root_graph(&parts, indy);
+		let n = g.len();
+		let gtxt = glist(g.iter().map(|a| gnums(a.iter().map(|&x| if x >= n { n as u64 } else { x as u64 }))));
+		let total: usize = parts.iter().sum();
+		let summary = if parts.len() > 8 { format!("{} arguments, sizes {:?}..", parts.len(), &parts[..4]) } else { format!("sizes {parts:?}") };
+		out.push(Input { kind: K_CLASS, form: Form::Raw(gen::bootstrap_class_roots(&g, &roots, indy)), stream: "case-bootstrap-multi", shape: "bootstrap-multi-argument",
+			label: format!("one {} whose top-level bootstrap arguments are dynamic constants over shared DAGs expanding to {summary} constants, {total} in total (limit 65536 per instruction)", if indy { "invokedynamic" } else { "ldc_w of a dynamic constant" }),
+			case: Some(format!("CBootN {gtxt} {} {}", gnums(roots.iter().map(|&x| x as u64)), gbool(indy))) });
+	}
+	// random graphs with several roots under one invokedynamic
+	for _ in 0..60 * scale {
+		let n = rng.range(1, 6);
+		let acyclic = rng.chance(2, 3);
+		let g: Vec<Vec<usize>> = (0..n).map(|i| (0..rng.below(4)).map(|_| if rng.chance(1, 3) { usize::MAX } else if acyclic { if i + 1 < n { rng.range(i + 1, n - 1) } else { usize::MAX } } else { rng.below(n) }).collect()).collect();
+		let roots: Vec<usize> = (0..rng.range(0, 4)).map(|_| if rng.chance(1, 5) { usize::MAX } else { rng.below(n) }).collect();
+		let gtxt = glist(g.iter().map(|a| gnums(a.iter().map(|&x| if x >= n { n as u64 } else { x as u64 }))));
+		out.push(Input { kind: K_CLASS, form: Form::Raw(gen::bootstrap_class_roots(&g, &roots, true)), stream: "case-bootstrap-multi", shape: "bootstrap-multi-argument",
+			label: format!("invokedynamic with the bootstrap arguments {roots:?} over the graph {g:?} (usize::MAX = integer leaf)"),
+			case: Some(format!("CBootN {gtxt} {} true", gnums(roots.iter().map(|&x| if x >= n { n as u64 } else { x as u64 })))) });
+	}
+	// invokeinterface: the writer recomputes the count operand (u8) from the method descriptor
+	for (what, d) in gen::argument_size_descriptors() {
+		let text = String::from_utf8_lossy(&d).into_owned();
+		out.push(Input { kind: K_CLASS, form: Form::Raw(gen::invokeinterface_class(&d)), stream: "case-arguments-size", shape: "invokeinterface-arguments-size",
+			label: format!("invokeinterface with a descriptor of {what} ({} bytes), read then written", d.len()), case: Some(format!("CArgSize {}", gstr(&cps_str(&text)))) });
+	}
 	// unknown attribute: declared length vs bytes present
 	for (declared, actual) in [(0u32, 0usize), (0, 5), (5, 5), (6, 5), (4, 5), (0xFFFF_FFFF, 5), (0x7FFF_FFFF, 0), (0x8000_0000, 5), (0x1000_0000, 16), (0x0800_0000, 1), (65536, 65536), (65537, 65536), (100, 70000)] {
 		for (an, tag) in [("Foo", 0u64), ("SourceDebugExtension", 1)] {
@@ -234,6 +346,8 @@ fn case_inputs(rng: &mut Rng, thorough: bool, out: &mut Vec<Input>) {
 		if depth > 0 {
 			out.push(mk("case-nesting", format!("CNest 0 {depth}"), format!("RuntimeVisibleAnnotations: arrays nested {depth} deep"), gen::deep_annotation_class("RuntimeVisibleAnnotations", depth, false)));
 			out.push(mk("case-nesting", format!("CNest 1 {depth}"), format!("RuntimeInvisibleAnnotations: annotations nested {depth} deep"), gen::deep_annotation_class("RuntimeInvisibleAnnotations", depth, true)));
+			out.push(mk("case-nesting", format!("CNest 3 {depth}"), format!("RuntimeVisibleAnnotations: arrays and annotations alternating, nested {depth} deep, array outermost"), gen::deep_annotation_class_mode("RuntimeVisibleAnnotations", depth, 2)));
+			out.push(mk("case-nesting", format!("CNest 4 {depth}"), format!("RuntimeInvisibleAnnotations: annotations and arrays alternating, nested {depth} deep, annotation outermost"), gen::deep_annotation_class_mode("RuntimeInvisibleAnnotations", depth, 3)));
 		}
 		let mut v = vec![];
 		for d in 0..depth { v.extend(std::iter::repeat(b'\t').take(d)); v.extend_from_slice(b"CLASS A B\n"); }
@@ -260,6 +374,24 @@ fn case_inputs(rng: &mut Rng, thorough: bool, out: &mut Vec<Input>) {
 		for (kind, k) in [(K_DESC, 0u64), (K_MDESC, 1), (K_RDESC, 2)] {
 			out.push(Input { kind, form: Form::Raw(s.as_bytes().to_vec()), stream: "case-descriptor", label: format!("descriptor {s:?}"), shape: "", case: Some(format!("CDesc {k} {}", gstr(&d))) });
 		}
+	}
+}
+
+/// comment cells through the real tiny v2 reader (in this process, panics caught): what `unescape`
+/// made of them, for the model's unescape on code points.  Cells without TAB / CR / LF (those
+/// change the line structure; they are run in the sandbox streams only).
+fn unescape_cases(r: &mut Report) {
+	let mut cells = gen::escape_exhaustive();
+	cells.extend(gen::backslash_cells());
+	for a in ["r", "t", "\\"] { for b in ["\\", "r", "t", "n", "é"] { cells.push(format!("{a}{b}")); cells.push(format!("\\{a}{b}")); cells.push(format!("\\\\{a}{b}x")); } }
+	cells.sort(); cells.dedup();
+	for c in cells {
+		if c.contains(['\t', '\n', '\r']) { continue; }
+		let text = format!("tiny\t2\t0\ta\tb\nc\tA\tB\n\tc\t{c}\n");
+		let got = guarded(|| quill::tiny_v2::read::<2, NsA>(text.as_bytes()).map(|m| m.classes.values().next().and_then(|c| c.javadoc.as_ref().map(|j| j.0.clone()))));
+		r.eval(&format!("unescape:{c}"), true);
+		let (tok, s) = match got { Err(_) => ("RPanic", String::new()), Ok(Err(_)) | Ok(Ok(None)) => ("RErr", String::new()), Ok(Ok(Some(s))) => ("ROk", s) };
+		r.case("case-unescape", format!("CUnesc {} {tok} {}", gstr(&cps_str(&c)), gstr(&cps_str(&s))));
 	}
 }
 
@@ -320,7 +452,7 @@ pub fn run(ctx: &Ctx) -> anyhow::Result<Report> {
 	let _ = std::fs::remove_dir_all(&dir);
 	anyhow::ensure!(outs.len() == inputs.len(), "sandbox returned {} outcomes for {} inputs", outs.len(), inputs.len());
 
-	r.rule = format!("every input runs in a child process of the harness under ulimit (address space {} MiB, stack {} MiB, CPU {} s per batch, {} s CPU per input) with a counting allocator; outcome ok/err is fine, panic / signal / timeout / heap above 32 MiB + 512 x input size is a violation (each re-run alone before it counts). Inputs: {} valid classes (javac 17 output for --release 8/17 incl. records, sealed, module-info, lambdas, switches, annotations, type annotations; /repo fixtures), every structural field found by an independent walker set to boundary values, truncation at every byte, random byte edits, hand-assembled hostile shapes (truncated instructions, switch ranges, stack-map offset sums, local-variable ranges, exception ranges, code_length, attribute_length up to 4 GiB, self-referential / deep / shared bootstrap arguments, self-referential pool entries, deeply nested element values, huge counts, duplicates, 65535-byte code), text inputs for tiny v2 / tiny diff / Enigma / nests (fixtures mutated, random lines, invalid UTF-8, huge indentation, very long lines, deep CLASS nesting) and descriptor strings; accepted classes go through write_class and the written bytes are read again. Non-trivial: the parser accepted the input, or the input is a structured mutation of a valid file (reaches past the header). Distinct by input bytes.", LIMITS.as_kib / 1024, LIMITS.stack_kib / 1024, LIMITS.cpu_s, INPUT_CPU_LIMIT_MS / 1000, bases.len());
+	r.rule = format!("every input runs in a child process of the harness under ulimit (address space {} MiB, stack {} MiB, CPU {} s per batch, {} s CPU per input) with a counting allocator; outcome ok/err is fine, panic / signal / timeout / heap above 32 MiB + 512 x input size is a violation, and so is an accepted class in which one ldc / invokedynamic instruction carries more (nested) bootstrap arguments than the limit the reader documents (MAX_BOOTSTRAP_ARGUMENTS_EXPANDED as read from the source under test, 65536) (each re-run alone before it counts). Inputs: {} valid classes (javac 17 output for --release 8/17 incl. records, sealed, module-info, lambdas, switches, annotations, type annotations; /repo fixtures), every structural field found by an independent walker set to boundary values, truncation at every byte, random byte edits, hand-assembled hostile shapes (truncated instructions, switch ranges, stack-map offset sums, local-variable ranges, exception ranges, code_length, attribute_length up to 4 GiB, self-referential / deep / shared bootstrap arguments, one instruction with 1..255 top-level bootstrap arguments over shared DAGs of exact sizes (each far below or just under the budget, sums 65535 / 65536 / 65537 and far above, through invokedynamic and through ldc), self-referential pool entries, deeply nested element values (arrays, annotations, alternating), huge counts, duplicates, 65535-byte code, invokeinterface descriptors around the writer's u8 argument size), text inputs for tiny v2 / tiny diff / Enigma / nests (fixtures mutated, random lines, invalid UTF-8, huge indentation, very long lines, deep CLASS nesting; a backslash directly before 2-, 3-, 4-byte characters and combining marks, at the end of the line, doubled, before TAB, multi-byte characters next to every structural character, in every comment position / field; every string of length <= 3 over (backslash, n, e-acute, euro, U+10400, TAB, c) as comment cell) and descriptor strings; accepted classes go through write_class and the written bytes are read again. Non-trivial: the parser accepted the input, or the input is a structured mutation of a valid file (reaches past the header). Distinct by input bytes.", LIMITS.as_kib / 1024, LIMITS.stack_kib / 1024, LIMITS.cpu_s, INPUT_CPU_LIMIT_MS / 1000, bases.len());
 
 	// group failures so that the report shows each distinct failure once, smallest input first
 	struct Fail { what: String, replay: String, len: usize, count: u64, known: Option<&'static str> }
@@ -328,6 +460,9 @@ pub fn run(ctx: &Ctx) -> anyhow::Result<Report> {
 	let mut slowest: (u64, String) = (0, String::new());
 	let mut slow_list: Vec<(u64, String)> = vec![];
 	let mut fattest: (f64, String) = (0.0, String::new());
+	// correspondence cases; the heavy ones (up to 65537 model steps each) are spread evenly over the shards
+	let mut light_cases: Vec<(&'static str, String)> = vec![];
+	let mut heavy_cases: Vec<(&'static str, String)> = vec![];
 	for (inp, o) in inputs.iter().zip(outs.iter()) {
 		let bytes = inp.bytes(&bases);
 		let kname = match inp.kind { K_MDESC | K_RDESC => "descriptor", k => KIND_NAMES[k as usize] };
@@ -348,15 +483,17 @@ pub fn run(ctx: &Ctx) -> anyhow::Result<Report> {
 
 		// failures
 		let mut failure: Option<(String, String)> = None; // (kind, detail)
-		if o.res.bad() { failure = Some((format!("{kname} parser: {}", o.res.token()), o.res.detail())); }
+		if let Res::Limit(m) = &o.res { failure = Some((format!("{kname} parser: accepted an input beyond a limit that it documents"), m.clone())); }
+		else if o.res.bad() { failure = Some((format!("{kname} parser: {}", o.res.token()), o.res.detail())); }
 		else if let Some(w) = o.write.as_ref().filter(|w| w.bad()) { failure = Some((format!("class writer on an accepted class: {}", w.token()), w.detail())); }
 		else if mem_bad { failure = Some((format!("{kname} parser: allocation unrelated to input size"), format!("peak heap {} bytes, largest single request {} bytes, input {} bytes", o.peak, o.big, bytes.len()))); }
 		if let Some((fk, detail)) = &failure {
 			if !o.confirmed && !mem_bad { r.count("failure_not_reproduced_alone"); r.notes.push(format!("not reproduced when re-run alone: {} — {fk}: {detail}", inp.label)); }
 			else {
-				let generic: String = detail.chars().map(|c| if c.is_ascii_digit() { '#' } else { c }).collect();
+				// one group per kind of failure: numbers blanked, quoted input text (after the first quote) left out
+				let generic: String = detail.chars().take_while(|c| !matches!(c, '`' | '\'' | '"')).map(|c| if c.is_ascii_digit() { '#' } else { c }).collect();
 				let known = known_class(inp, &bytes, &format!("{fk}: {detail}"));
-				let key = format!("{fk}|{}|{}|{}", inp.shape, known.is_some(), &generic[..generic.len().min(120)]);
+				let key = format!("{fk}|{}|{}|{}", inp.shape, known.is_some(), generic.chars().take(120).collect::<String>());
 				let replay = format!("property C16\nparser: {kname}\nfailure: {fk}\ndetail: {detail}\ninput: {}\ninput length: {} bytes\n{}", inp.label, bytes.len(),
 					if bytes.len() <= 2048 { format!("input bytes (hex):\n{}", hex_dump(&bytes)) } else { format!("first 256 bytes (hex):\n{}", hex_dump(&bytes[..256])) });
 				let e = fails.entry(key).or_insert(Fail { what: format!("{fk}: {detail} — {}", inp.label), replay: replay.clone(), len: bytes.len(), count: 0, known });
@@ -367,9 +504,30 @@ pub fn run(ctx: &Ctx) -> anyhow::Result<Report> {
 		// correspondence case
 		if let Some(prefix) = &inp.case {
 			let tok = if failure.is_some() && (o.confirmed || mem_bad) { "RPanic" } else if o.res == Res::Ok { "ROk" } else { "RErr" };
-			r.case(inp.stream, format!("{prefix} {tok}"));
+			if prefix.starts_with("CBootN ") {
+				// the observed number of expanded arguments accompanies an accepted class
+				heavy_cases.push((inp.stream, format!("{prefix} {tok} {}", if tok == "ROk" { format!("(Some {})", o.aux) } else { "None".to_string() })));
+			} else if prefix.starts_with("CArgSize ") {
+				// what the WRITER did with the class the reader accepted
+				match (&o.res, &o.write) {
+					(Res::Ok, Some(w)) => light_cases.push((inp.stream, format!("{prefix} {}", match w { Res::Ok => "ROk", Res::Err => "RErr", _ => "RPanic" }))),
+					_ => r.count("arguments-size case without a writer run (reader refused)"),
+				}
+			} else {
+				light_cases.push((inp.stream, format!("{prefix} {tok}")));
+			}
 		}
 	}
+	{
+		let every = (light_cases.len() / heavy_cases.len().max(1)).max(1);
+		let mut heavy = heavy_cases.into_iter();
+		for (i, (stream, term)) in light_cases.into_iter().enumerate() {
+			if i % every == 0 { if let Some((hs, ht)) = heavy.next() { r.case(hs, ht); } }
+			r.case(stream, term);
+		}
+		for (hs, ht) in heavy { r.case(hs, ht); }
+	}
+	unescape_cases(&mut r);
 	r.notes.push(format!("slowest input: {} us — {}", slowest.0, slowest.1));
 	slow_list.sort(); slow_list.reverse();
 	r.count_n("inputs_slower_than_200ms", slow_list.len() as u64);
@@ -409,7 +567,18 @@ fn dump_crashers(dir: &Path) -> anyhow::Result<()> {
 		("f17g_bootstrap_shared_dag_26.class", gen::bootstrap_class(&dag(26), 0, false)),
 		("f17h_element_value_arrays_20000.class", gen::deep_annotation_class("RuntimeVisibleAnnotations", 20000, false)),
 		("f17h_element_value_annotations_20000.class", gen::deep_annotation_class("RuntimeInvisibleAnnotations", 20000, true)),
+		("f17h_element_value_alternating_20000.class", gen::deep_annotation_class_mode("RuntimeVisibleAnnotations", 20000, 2)),
 		("f17i_label_on_every_offset.class", gen::label_flood_class(65535, true)),
+		// the writer's u8 argument size (invokeinterface count operand)
+		("f17j_invokeinterface_128_long_parameters.class", gen::invokeinterface_class(format!("({})V", "J".repeat(128)).as_bytes())),
+		("f17j_invokeinterface_255_int_parameters.class", gen::invokeinterface_class(format!("({})V", "I".repeat(255)).as_bytes())),
+		// the budget of expanded bootstrap arguments is per instruction, not per top-level argument
+		("f17k_indy_three_arguments_32767_each.class", { let (g, roots) = gen::multi_root_graph(&[32767, 32767, 32767], true); gen::bootstrap_class_roots(&g, &roots, true) }),
+		("f17k_indy_255_arguments_258_each.class", { let (g, roots) = gen::multi_root_graph(&[258; 255], true); gen::bootstrap_class_roots(&g, &roots, true) }),
+		("f17k_ldc_two_arguments_sum_65537.class", { let (g, roots) = gen::multi_root_graph(&[32768, 32769], false); gen::bootstrap_class_roots(&g, &roots, false) }),
+		// a backslash directly before a multi-byte character in a comment
+		("f17l_comment_backslash_multibyte.tiny", "tiny\t2\t0\ta\tb\nc\tA\tB\n\tc\tsee C:\\Données\\été\n".as_bytes().to_vec()),
+		("f17l_comment_backslash_multibyte.tinydiff", "tiny\t2\t0\nc\tA\tX\tY\n\tc\t\\€\t\\𐐀\n".as_bytes().to_vec()),
 	];
 	for (n, b) in files { std::fs::write(dir.join(n), b)?; }
 	Ok(())
